@@ -101,7 +101,7 @@ def handle (op : String) (req : Json) : Except String Json :=
     let out := match ind with
       | some w => commentBlock st w (cfLines text)
       | none => commentFilter st text
-    pure (Json.mkObj [("out", strJ out), ("lines", Json.arr ((cfLines text).map strJ).toArray)])
+    pure (Json.mkObj [("out", strJ out), ("disk", strJ (written out)), ("lines", Json.arr ((cfLines text).map strJ).toArray)])
   | "c12.indent" => do
     let w ← req.getObjValAs? Nat "w"
     pure (Json.mkObj [("out", strJ (jinjaIndent w (← getChars req "text")))])
@@ -114,7 +114,7 @@ def handle (op : String) (req : Json) : Except String Json :=
       | "objc" => pure (deprecatedObjc d)
       | "cppcli" => pure (deprecatedCppCli d)
       | t => throw s!"unknown target {t}"
-    pure (Json.mkObj [("out", strJ out)])
+    pure (Json.mkObj [("out", strJ out), ("disk", strJ (written out))])
   | "c12.lex" => do
     match ← lexLang (← req.getObjValAs? String "lang") (← getChars req "text") with
     | some t => pure (Json.mkObj [("tokens", toksJ t)])
